@@ -112,10 +112,12 @@ class DagWalker(Walker):
         if formula in self.memoization:
             return self.memoization[formula]
 
-        res = self.iter_walk(formula, **kwargs)
-
-        if self.invalidate_memoization:
-            self.memoization.clear()
+        try:
+            res = self.iter_walk(formula, **kwargs)
+        finally:
+            # One-shot memoization must not survive a failed walk either
+            if self.invalidate_memoization:
+                self.memoization.clear()
         return res
 
     def _get_key(self, formula: FNode, **kwargs) -> FNode:
